@@ -14,9 +14,14 @@ __CPROVER_requires(__CPROVER_is_fresh(WV_BG, sizeof(buffergroup)) && __CPROVER_i
                    __CPROVER_is_fresh(WV_BG->ctrl, sizeof(bufferctrl) * WV_TSZ(this->THREADS_NUM)) && __CPROVER_is_fresh(WV_BG->fin, sizeof(wv_FILE)) &&
                    __CPROVER_is_fresh(WV_BG->fout, sizeof(wv_FILE)))
 __CPROVER_requires(WV_BG->size == this->THREADS_NUM && WV_BG->turn == 0 && !WV_BG->over && WV_BG_EMPTY(WV_BG) && bufferctrl__live_num == this->THREADS_NUM)
-__CPROVER_requires(WV_FILE_OPEN(WV_BG->fin) && WV_BG->fout->open && WV_BG->fout->pos == WV_BG->fout->len && WV_BG->fout->len < (1ull << 50) && wv_wcount < (1ull << 60))
+__CPROVER_requires(WV_FILE_OPEN(WV_BG->fin) && WV_BG->fout->open && WV_BG->fout->pos == WV_BG->fout->len && WV_BG->fout->len < (1ull << 50) && wv_wcount < (1ull << 59))
+__CPROVER_requires(__CPROVER_is_fresh(mode, sizeof(Aesmode *) * WV_TSZ(this->THREADS_NUM)) && WV_IOI(WV_BG) && !buffergroup__mtx.held && !WV_BG->fin->eof &&
+                   WV_BG->fin->pos < (1ull << 50) && WV_BG->fin->len < (1ull << 50) && WV_BG->fout->nbytes < (1ull << 59) && wv_pg < 16 && wv_gk < 16)
 __CPROVER_assigns(WV_BG->turn, WV_BG->over, __CPROVER_object_whole(WV_BG->buflst), __CPROVER_object_whole(WV_BG->ctrl), bufferctrl__live_num,
-                  WV_BG->fin->pos, WV_BG->fin->eof, WV_FILE_WSTATE(WV_BG->fout), WV_ARR(this->threads))
+                  WV_BG->fin->pos, WV_BG->fin->eof, WV_FILE_WSTATE(WV_BG->fout), WV_ARR(this->threads), wv_c, wv_b, wv_steps, wv_pl.notified_ready, wv_pl.notified_update)
+/* [C14] worker i is started on buffer i with stream object i, [C04] and every worker started is joined before the run returns */
+__CPROVER_ensures(wv_gk < this->THREADS_NUM ==> (this->threads[wv_gk].started && this->threads[wv_gk].joined && this->threads[wv_gk].arg == wv_gk &&
+                                                this->threads[wv_gk].obj == (void *)mode[wv_gk]))
 /* everything is consumed, every buffer is retired */
 __CPROVER_ensures(bufferctrl__live_num == 0 && WV_BG->fin->pos >= WV_BG->fin->len)
 /* encryption appends exactly 16*(floor(n/16)+1) bytes, each output offset written exactly once */
@@ -163,7 +168,6 @@ __CPROVER_ensures(wv_c->state == INV && wv_pl.runs == wv_pl.entries && wv_pl.ord
 
 /* ====================================================================================================================
    Part 3: the I/O thread's side.  Chunk size: iobuffer__sum bytes = iobuffer__BUF_SZ blocks (proof-build values, DESIGN.md 2.4). */
-unsigned wv_pg;     /* ghost: observed byte position inside the padding block */
 #define WV_FILE_VALID(f) (__CPROVER_rw_ok(f, sizeof(wv_FILE)) && WV_FILE_OPEN(f))
 #define WV_AVAIL0(f) (__CPROVER_old((f)->pos) <= __CPROVER_old((f)->len) ? __CPROVER_old((f)->len) - __CPROVER_old((f)->pos) : 0ull)
 #define WV_LOAD0(f) (WV_AVAIL0(f) >= iobuffer__sum ? (u32_t)iobuffer__sum : (u32_t)WV_AVAIL0(f))
@@ -228,13 +232,63 @@ __CPROVER_ensures(!__CPROVER_old(this->over) ==> (this->fin->pos == __CPROVER_ol
 __CPROVER_ensures((wv_c->state == READY || wv_c->state == INV) && !wv_c->lock.held && wv_pl.notified_ready && WV_B_OK(wv_b))
 __CPROVER_ensures(wv_c->state == READY ==> (wv_b->now == 0 && (!wv_b->isfinal ==> wv_b->total == iobuffer__BUF_SZ)))
 __CPROVER_ensures(wv_c->state == INV ==> wv_b->now == wv_b->total)
-__CPROVER_ensures(bufferctrl__live_num == __CPROVER_old(bufferctrl__live_num) - (wv_c->state == INV ? 1 : 0) && (!this->over ==> !this->fin->eof));
+__CPROVER_ensures(bufferctrl__live_num == __CPROVER_old(bufferctrl__live_num) - (wv_c->state == INV ? 1 : 0) && (!this->over ==> !this->fin->eof))
+/* accounting [C11, C02]: a flush writes at most the 16 * total bytes the buffer held; a published load holds at most the bytes just
+   read, plus one padding block for the last chunk of an encryption; a buffer is retired only once the input is exhausted */
+__CPROVER_ensures(this->fout->nbytes - __CPROVER_old(this->fout->nbytes) <= ((unsigned long long)__CPROVER_old(wv_b->total) << 4))
+__CPROVER_ensures((wv_c->state == READY && !__CPROVER_old(this->over)) ==> ((unsigned long long)wv_b->total << 4) <= WV_LOAD0(this->fin) + ((this->ispadding && this->over) ? 16 : 0))
+/* encryption side, exactly [C02]: a flush writes all 16 * total bytes; a load is published always, a FULL chunk as it is, the last
+   chunk rounded down to whole blocks plus the padding block */
+__CPROVER_ensures(this->ispadding ==> this->fout->nbytes - __CPROVER_old(this->fout->nbytes) == (__CPROVER_old(wv_c->state) == UPDATING ? ((unsigned long long)__CPROVER_old(wv_b->total) << 4) : 0ull))
+__CPROVER_ensures((this->ispadding && !__CPROVER_old(this->over)) ==> (wv_c->state == READY && (this->over ? ((unsigned long long)wv_b->total << 4) == (WV_LOAD0(this->fin) & ~15ull) + 16
+                                                                                                                    : (((unsigned long long)wv_b->total << 4) == iobuffer__sum && WV_LOAD0(this->fin) == iobuffer__sum))))
+__CPROVER_ensures((wv_c->state == INV ==> this->over) && ((this->over && !__CPROVER_old(this->over)) ==> this->fin->pos >= this->fin->len) && this->fin->open)
+/* [C03] output is appended: one write at the old position, every offset of it written once */
+__CPROVER_ensures(this->fout->open && (__CPROVER_old(this->fout->pos) == __CPROVER_old(this->fout->len) ==> this->fout->len == this->fout->pos))
+__CPROVER_ensures((wv_wP >= __CPROVER_old(this->fout->pos) && wv_wP < this->fout->pos) ? wv_wcount == __CPROVER_old(wv_wcount) + 1
+                                                                                     : (wv_wcount == __CPROVER_old(wv_wcount) && wv_wbyte == __CPROVER_old(wv_wbyte)));
 
 /* [C04 lemma 5] the turn moves to the next buffer that is not retired; false exactly when every buffer is retired */
 bool buffergroup__turn_iter(buffergroup *this)
-__CPROVER_requires(__CPROVER_rw_ok(this, sizeof(*this)) && this->size >= 1 && this->size <= 16 && this->turn < this->size && __CPROVER_rw_ok(this->ctrl, sizeof(bufferctrl) * 16))
+__CPROVER_requires(__CPROVER_rw_ok(this, sizeof(*this)) && this->size >= 1 && this->size <= 16 && this->turn < this->size && __CPROVER_rw_ok(this->ctrl, sizeof(bufferctrl) * WV_TSZ(this->size)))
 __CPROVER_requires(bufferctrl__live_num == WV_COUNT_LIVE(this))
 __CPROVER_assigns(this->turn, wv_steps)
 __CPROVER_ensures(__CPROVER_return_value == (bufferctrl__live_num != 0) && this->turn < this->size)
 __CPROVER_ensures(__CPROVER_return_value ? this->ctrl[this->turn].state != INV : this->turn == __CPROVER_old(this->turn));
+
+/* [C04 lemma 5] the turn moves ... (above).  ---- the I/O thread's loop ----
+   The rely applied at the head of every turn, to every buffer: the worker that owns a READY buffer may have taken further blocks
+   (now grows up to total), transformed them in place (contents arbitrary), and - having taken all - handed the buffer back. */
+void wv_rely_workers(buffergroup *g)
+{
+  for (unsigned j = 0; j < 16; j++)
+    if (j < g->size && g->ctrl[j].state == READY)
+    {
+      u32_t n; _Bool back;   /* (block contents are also the worker's to change; no fact of the I/O loop mentions them) */
+      __CPROVER_assume(n >= g->buflst[j].now && n <= g->buflst[j].total);
+      g->buflst[j].now = n;
+      if (back && n == g->buflst[j].total)
+        g->ctrl[j].state = UPDATING;
+    }
+}
+
+/* run_buffer under that rely: [C14] every step the I/O thread takes on a buffer is taken while it owns it (the callees' preconditions);
+   [C04] it leaves when every buffer is retired, and each turn either loads input, or notices its end, or retires a buffer;
+   [C11] never more bytes written than were read (plus the one padding block on the encryption side); [C03] output is appended,
+   every output offset written once. */
+void buffergroup__run_buffer(buffergroup *this)
+__CPROVER_requires(__CPROVER_rw_ok(this, sizeof(*this)) && this->size >= 1 && this->size <= 16 && WV_T_IS(this->size) && this->turn == 0 && !this->over)
+__CPROVER_requires(__CPROVER_rw_ok(this->ctrl, sizeof(bufferctrl) * WV_TSZ(this->size)) && __CPROVER_rw_ok(this->buflst, sizeof(iobuffer) * WV_TSZ(this->size)) && WV_BG_EMPTY(this) && WV_IOI(this))
+__CPROVER_requires(bufferctrl__live_num == this->size && WV_FILE_VALID(this->fin) && !this->fin->eof && __CPROVER_rw_ok(this->fout, sizeof(wv_FILE)) && this->fout->open &&
+                   this->fout->pos == this->fout->len && this->fout->len < (1ull << 50) && this->fin->len < (1ull << 50) && this->fin->pos < (1ull << 50) && this->fout->nbytes < (1ull << 59) && wv_wcount < (1ull << 59) && wv_pg < 16)
+__CPROVER_assigns(WV_IO_LOOP_FRAME(this))
+__CPROVER_ensures(bufferctrl__live_num == 0 && this->over && this->fin->pos >= this->fin->len)
+__CPROVER_ensures(this->fout->nbytes - __CPROVER_old(this->fout->nbytes) <= (this->fin->pos - __CPROVER_old(this->fin->pos)) + (this->ispadding ? 16 : 0))
+__CPROVER_ensures(this->fin->pos >= __CPROVER_old(this->fin->pos) && this->fin->pos <= (__CPROVER_old(this->fin->pos) > this->fin->len ? __CPROVER_old(this->fin->pos) : this->fin->len))
+/* [C02] encryption writes exactly the whole blocks of the input plus one padding block */
+__CPROVER_ensures(this->ispadding ==> this->fout->nbytes - __CPROVER_old(this->fout->nbytes) == ((this->fin->pos - __CPROVER_old(this->fin->pos)) & ~15ull) + 16)
+__CPROVER_ensures(this->fout->pos == __CPROVER_old(this->fout->pos) + (this->fout->nbytes - __CPROVER_old(this->fout->nbytes)) && this->fout->len == this->fout->pos)
+__CPROVER_ensures((wv_wP >= __CPROVER_old(this->fout->pos) && wv_wP < this->fout->pos) ? wv_wcount == __CPROVER_old(wv_wcount) + 1
+                                                                                     : (wv_wcount == __CPROVER_old(wv_wcount) && wv_wbyte == __CPROVER_old(wv_wbyte)))
+__CPROVER_ensures(this->fout->open && this->fin->open);
 #endif
